@@ -3,7 +3,9 @@ LEVEL = "other"
 CONTRACT_MODULES = ["contracts.table_sel", "contracts.table_cache", "contracts.table_regexp"]
 FUNCTIONS = ["Table._get_row_indices@value-range", "Table._get_row_indices@name-span", "Table._get_regexp_indices@scan", "Table._get_regexp_indices@combine", "Table._get_row_cache"]
 # name-based selectors resolve through the lookup tables: their coherence with the index column across updates is C07's class invariant
-BORROW = [("C07", ["Table.__setitem__", "Table._append_row", "Table._concatenate_table", "Table.__delitem__", "Table.pop", "Table._get_cache", "Table._make_cache"])]
+BORROW = [("C07", ["Table.__setitem__", "Table._append_row", "Table._concatenate_table", "Table.__delitem__", "Table.pop", "Table._get_cache", "Table._make_cache",
+                   # the endpoints of a name span a:b are resolved by _get_row_index
+                   "Table._get_row_index@int", "Table._get_row_index@str", "Table._get_row_index@tuple2", "Table._get_row_index@tuple3"])]
 RAC = "rac/c08.py"
 RAC_BUDGET = {"quick": 60, "thorough": 900}
 RAC_MIN = {"quick": 18749, "thorough": 18749}      # fewer run-time evaluations than this = the harness skipped its work: checker broken, not "held"
